@@ -202,7 +202,7 @@ def rebuild(cirq, w, circ, how):
     if how == 'add_empty':
         return circ + cirq.Circuit()
     if how == 'from_moments':
-        return cirq.Circuit.from_moments(*circ.moments)
+        return cirq.Circuit.from_moments(*circ.moments, tags=circ.tags)
     raise common.InfraError(f'unknown rebuild {how}')
 
 
